@@ -31,6 +31,75 @@ class _Rewriter(ast.NodeTransformer):
                 ast.Call(func=ast.Name(id="__symx_isinstance__", ctx=ast.Load()), args=node.args, keywords=[]), node)
         return node
 
+    def visit_Dict(self, node):
+        self.generic_visit(node)
+        return ast.copy_location(ast.Call(func=ast.Name(id="__symx_dict__", ctx=ast.Load()), args=[node], keywords=[]), node)
+
+    def visit_DictComp(self, node):
+        self.generic_visit(node)
+        return ast.copy_location(ast.Call(func=ast.Name(id="__symx_dict__", ctx=ast.Load()), args=[node], keywords=[]), node)
+
+
+class SymDict(dict):
+    """dict whose lookups fall back to a linear search with symbolic == when a proxy key is involved (a real dict
+    never compares a proxy with a concrete key: their hashes differ)."""
+
+    @staticmethod
+    def _is_proxy(k):
+        return isinstance(k, (core.SymInt, core.SymBool)) or type(k).__name__ in ("SymStr", "SymBytes", "SymGuid")
+
+    def _find(self, key):
+        if not self._is_proxy(key):
+            if dict.__contains__(self, key):
+                return key
+            for k in dict.keys(self):
+                if self._is_proxy(k) and bool(k == key):
+                    return k
+            return _MISSING
+        for k in dict.keys(self):
+            if bool(k == key):
+                return k
+        return _MISSING
+
+    def __getitem__(self, key):
+        k = self._find(key)
+        if k is _MISSING:
+            raise KeyError(key)
+        return dict.__getitem__(self, k)
+
+    def __setitem__(self, key, value):
+        k = self._find(key)
+        dict.__setitem__(self, key if k is _MISSING else k, value)
+
+    def __contains__(self, key):
+        return self._find(key) is not _MISSING
+
+    def get(self, key, default=None):
+        k = self._find(key)
+        return default if k is _MISSING else dict.__getitem__(self, k)
+
+    def setdefault(self, key, default=None):
+        k = self._find(key)
+        if k is _MISSING:
+            dict.__setitem__(self, key, default)
+            return default
+        return dict.__getitem__(self, k)
+
+    def pop(self, key, *default):
+        k = self._find(key)
+        if k is _MISSING:
+            if default:
+                return default[0]
+            raise KeyError(key)
+        return dict.pop(self, k)
+
+
+_MISSING = object()
+
+
+def sym_dict(d):
+    return SymDict(d)
+
 
 _counter = [0]
 
@@ -48,6 +117,7 @@ def load(path, shadows="fork", extra=None):
     d = mod.__dict__
     d["__symx_join__"] = sbytes.sym_join
     d["__symx_isinstance__"] = core.sym_isinstance
+    d["__symx_dict__"] = sym_dict
     if shadows:
         d["min"] = core.fork_min if shadows == "fork" else core.sym_min
         d["max"] = core.fork_max if shadows == "fork" else core.sym_max
